@@ -42,11 +42,18 @@ def execOp (op : String) (a : List Int) : Option (Option String) :=
   match op, a with
   | "term.of", [y, m, d] => some <|
       if !solarDayOk y m d then none else (ofDay E y m d).map fun r => s!"{fmtG r.1} {r.2}"
+  -- `SolarDay::get_term()`: the term of the day's term day
+  | "term.ofd", [y, m, d] => some <|
+      if !solarDayOk y m d then none else (ofDay E y m d).map fun r => fmtG r.1
   | "term.oftime", [y, m, d, h, mi, s] => some <|
       if !timeOk y m d h mi s then none else (ofTime E y m d h mi s).map fmtG
   | "term.new", [y, i] => some <|
       let t := fromIndex y i
       some s!"{t.1} {t.2} {b01 (isJie t)} {b01 (isQi t)}"
+  -- found again by its name in its own year: the same term
+  | "term.byname", [y, i] => some <|
+      let t := fromIndex y i
+      some s!"{t.1} {t.2} 1"
   | "term.next", [y, i, n] => some <|
       let t := next (fromIndex y i) n
       some s!"{t.1} {t.2}"
@@ -63,6 +70,10 @@ def execOp (op : String) (a : List Int) : Option (Option String) :=
 def specOp (op : String) (a : List Int) : Option (Option String) :=
   match op, a with
   | "term.of", [y, m, d] => some <| specOfDay y m d
+  | "term.ofd", [y, m, d] => some <| (specOfDay y m d).map fun r =>
+      match r.splitOn " " with
+      | a :: b :: _ => s!"{a} {b}"
+      | _ => r
   | "term.oftime", [y, m, d, h, mi, s] => some <|
       if !(Civil.valid y m d && decide (0 ≤ h ∧ h ≤ 23 ∧ 0 ≤ mi ∧ mi ≤ 59 ∧ 0 ≤ s ∧ s ≤ 59)) then none else
       let sec := 86400 * (1721424 + Civil.ord y m d) + 3600 * h + 60 * mi + s
